@@ -90,7 +90,7 @@ RULES = [
     ('R3c', '.into_owned() dropped', re.compile(r'\.into_owned\(\)'), ''),
     # R4: operator sugar on bitmaps
     ('R4a', 'a -= b; -> a.sub_assign_(b);', re.compile(r'(?m)^([ \t]*)(\w+) -= (&?[A-Za-z_]\w*);'), r'\1\2.sub_assign_(\3);'),
-    ('R4b', 'a |= b; -> a.or_assign_(b);', re.compile(r'(?m)^([ \t]*)(\w+) \|= (&?[A-Za-z_]\w*);'), r'\1\2.or_assign_(\3);'),
+    ('R4b', 'a |= &b; -> a.or_assign_(&b);  a |= b; -> a.or_assign_(&b); (the by-value operand is consumed: same resulting set)', re.compile(r'(?m)^([ \t]*)(\w+) \|= &?([A-Za-z_]\w*);'), r'\1\2.or_assign_(&\3);'),
     ('R4c', '&a | &b -> bitor_(&a, &b)', re.compile(r'&(\w+) \| &(\w+)'), r'bitor_(&\1, &\2)'),
     ('R4d', '&a & &b -> bitand_(&a, &b)', re.compile(r'&(\w+) & &(\w+)'), r'bitand_(&\1, &\2)'),
     ('R7e', '(m as f64 * 2.0 / 3.0).floor() as usize -> two_thirds_(m) (floating point: an uninterpreted usize)',
@@ -260,6 +260,8 @@ class Block:
         self.loopend = {}
         self.substs = []   # (old, new, count)
         self.hints = []    # (where, anchor, text)
+        self.ghostparams = []   # declarations appended to the parameter list (erased at run time)
+        self.ghostargs = []     # (callee, expr) appended to every call of `callee` in the body
         self.noglobal = []
         self.optional = False
         self.stub = False
@@ -358,6 +360,13 @@ def parse_template(path, units_dir):
                             tgt.append(lines[i])
                         i += 1
                     b.substs.append(('\n'.join(old), '\n'.join(new), cnt)); cur = None
+                elif ln.startswith('//@ghostparam '):
+                    b.ghostparams.append(ln[len('//@ghostparam '):].strip()); cur = None
+                elif ln.startswith('//@ghostarg '):
+                    m = re.match(r'//@ghostarg (\w+) <<<(.*)>>>\s*$', ln)
+                    if not m:
+                        raise ExtractError('%s: bad ghostarg line: %s' % (path, ln))
+                    b.ghostargs.append((m.group(1), m.group(2))); cur = None
                 elif ln.startswith('//@hint '):
                     m = re.match(r'//@hint (afterstmt|after|before)(?:#(\d+))? <<<(.*)>>>\s*$', ln)
                     if not m:
@@ -503,6 +512,24 @@ def extract_block(b: Block, snapshot: str):
             raise ExtractError('subst anchor in %s::%s occurs %d times (expected %d): %r' % (b.file, b.fn, c, cnt, old[:80]))
         text = text.replace(old, new)
         fired['subst'] = fired.get('subst', 0) + cnt
+    # ghost arguments: `X.callee(args)` -> `X.callee(args, EXPR)` (the callee declares a matching //@ghostparam)
+    for callee, expr in b.ghostargs:
+        pos, cnt = 0, 0
+        while True:
+            mk = rustlex.mask(text)
+            m = re.search(r'\.%s\s*\(' % re.escape(callee), mk[pos:])
+            if not m:
+                break
+            op = pos + m.end() - 1
+            cp = rustlex.match_close(mk, op)
+            inner = mk[op + 1:cp].rstrip()
+            ins = (' ' if inner.endswith(',') else ', ') + expr
+            text = text[:cp] + ins + text[cp:]
+            pos = cp + len(ins)
+            cnt += 1
+        if cnt == 0:
+            raise ExtractError('ghostarg: no call of %s in %s::%s' % (callee, b.file, b.fn))
+        fired['ghostarg'] = fired.get('ghostarg', 0) + cnt
     # hints
     for where, anchor, lines in b.hints:
         nth = None
@@ -585,6 +612,26 @@ def extract_block(b: Block, snapshot: str):
     mfn = re.search(r'(?:pub(?:\([a-z]+\))?\s+)?(?:const\s+)?(?:unsafe\s+)?fn\s+%s\b' % re.escape(b.fn), m2)
     body_open = rustlex.next_open_brace(m2, mfn.start())
     sig = _sig_rewrite(text, m2, mfn.start(), body_open, b.spec, b.rename, b.fn)
+    if b.ghostparams:
+        ms = rustlex.mask(sig)
+        mname = re.search(r'\bfn\s+\w+', ms)
+        k = mname.end()
+        if ms[k:].lstrip().startswith('<'):
+            # skip generics
+            k = k + ms[k:].index('<')
+            depth = 0
+            while True:
+                if ms[k] == '<': depth += 1
+                elif ms[k] == '>':
+                    depth -= 1
+                    if depth == 0: break
+                k += 1
+        op = ms.index('(', k)
+        cp = rustlex.match_close(ms, op)
+        inner = ms[op + 1:cp].rstrip()
+        ins = ('' if inner.endswith(',') or not inner.strip() else ',') + ' ' + ', '.join(b.ghostparams)
+        sig = sig[:cp] + ins + sig[cp:]
+        fired['ghostparam'] = len(b.ghostparams)
     sig = re.sub(r'\bunsafe\s+fn\b', 'fn', sig)
     if b.stub:
         # contract-only stub of a function verified in another unit: the caller is checked against the contract, not the body
